@@ -36,7 +36,7 @@ FAULTS = ["dup_label", "undef_label_operand", "undef_label_push", "undef_label_m
           "undef_variable", "imacro_as_expr", "recursive_imacro", "recursive_emacro", "unbound_var_nested", "missing_arg_nested",
           "undef_label_surplus_arg", "undef_emacro_surplus_arg", "undef_label_nested_arg", "undef_label_surplus_in_imacro_arg",
           "undef_label_surplus_in_push", "too_large_push", "too_large_push_in_macro", "negative_push",
-          "undef_label_arg_like_local", "undef_label_arg_like_local_nested"]
+          "undef_label_arg_like_local", "undef_label_arg_like_local_nested", "emacro_missing_arg_unused"]
 
 
 def inject(rng, prog, fault):
@@ -68,6 +68,11 @@ def inject(rng, prog, fault):
     elif fault == "emacro_missing_arg":
         p.insert(pos, ("op", "push1", ("macro", "twice", [])))
         exp = ("UndeclaredVariableMacro", "x")
+    elif fault == "emacro_missing_arg_unused":
+        # the parameter without argument is not read by the body: still ill-formed (D32)
+        p.insert(0, ("defe", "const5", ["x", "y"], G.climb([("var", "x"), "+", ("num", 5)])))
+        p.insert(max(pos, 1), ("op", "push1", ("macro", "const5", [("num", 1)])))
+        exp = ("UndeclaredVariableMacro", "y")
     elif fault == "imacro_arity_less":
         p.insert(pos, ("macro", "guard", []))
         exp = ("MacroArgumentCount", "guard")
@@ -199,5 +204,5 @@ def check(run):
         p, e2 = inject(rng, p, f2)
         cases.append(mk_case(p, f"{f1}+{f2}", expect=e1, nfaults=2))
     return asmfam.run_family(run, "C13", cases, oracle,
-                             "a well-formed base program (backward+forward reference in one operand, instruction macro with local label and parameter, expression macro, definitions before or after use) with 0, 1 or 2 injected faults out of 32 kinds (incl. surplus arguments, out-of-range %push inside and outside macros, an undeclared label argument spelled like a macro-local label) at a random position; oracle: well-formed => ok, one fault => the matching error kind naming the offender; distinct = distinct sources",
+                             "a well-formed base program (backward+forward reference in one operand, instruction macro with local label and parameter, expression macro, definitions before or after use) with 0, 1 or 2 injected faults out of 33 kinds (incl. surplus arguments, out-of-range %push inside and outside macros, an undeclared label argument spelled like a macro-local label) at a random position; oracle: well-formed => ok, one fault => the matching error kind naming the offender; distinct = distinct sources",
                              "well-formedness and error kinds")
